@@ -1400,7 +1400,7 @@ def run(chk):
         "to) before it is dereferenced, and realloc never overwrites the only copy unchecked; packers: every exit after a "
         "successful sqfs_writer_init passes sqfs_writer_cleanup, EXIT_SUCCESS only from the success edge of "
         "sqfs_writer_finish, cleanup unlinks on failure; all four mains: exit status 0 unreachable from every failure "
-        "edge; submit failures propagate. Further rules: E4 (an error result obtained in a loop is examined before the next iteration replaces it), E5 (results of tri-state functions are not collapsed to ==0), E6 (an error edge does not return a regular value), E9 (every failure of a fault source or of a libsquashfs/libutil call in tool-level code is reported on stderr there or on every way up to main's exit: bottom-up summary of functions that hand a failure on unreported, path enumeration from the call under the assumption that it failed), E8 (a failing call in a loop whose result is only compared with 0 does not lead round the loop to the next attempt without a trace), E7 (no path from an allocation-failure edge or a negative-result edge returns 0 / a status variable pinned to 0: path enumeration with phis resolved by edge and loads by the last store), init-unlinks and chdir-undone under K1-cleanup. K6-capagree: where an allocation failure is survived by asking for less, the capacity recorded is the one the allocation that succeeded was sized for; E7 does not report a failure that a second allocation on the path made good. E7 also takes the NULL answer of the project's own constructors (functions whose every NULL return lies behind a tested call result) as a failure edge.")
+        "edge; submit failures propagate. Further rules: E4 (an error result obtained in a loop is examined before the next iteration replaces it), E5 (results of tri-state functions are not collapsed to ==0), E6 (an error edge does not return a regular value), E9 (every failure of a fault source or of a libsquashfs/libutil call in tool-level code is reported on stderr there or on every way up to main's exit: bottom-up summary of functions that hand a failure on unreported, path enumeration from the call under the assumption that it failed), E8 (a failing call in a loop whose result is only compared with 0 does not lead round the loop to the next attempt without a trace), E7 (no path from an allocation-failure edge or a negative-result edge returns 0 / a status variable pinned to 0: path enumeration with phis resolved by edge and loads by the last store), init-unlinks and chdir-undone under K1-cleanup. K6-capagree: where an allocation failure is survived by asking for less, the capacity recorded is the one the allocation that succeeded was sized for; E7 does not report a failure that a second allocation on the path made good. K8-freestack: a pointer that can name a local array on some way into free() is released only behind a test that excludes the array. E7 also takes the NULL answer of the project's own constructors (functions whose every NULL return lies behind a tested call result) as a failure edge.")
     chk.assumptions = ["that the handling of a consumed error is *right* is not decided, only that the error reaches a decision"]
     seen1, seen2, seen3, seen4, seen5, seen6, seen7 = set(), set(), set(), set(), set(), set(), set()
     seen8, seen9, seen10 = set(), set(), set()
@@ -1440,6 +1440,9 @@ def run(chk):
     chk.floor("K1-status", 4)
     chk.floor("E1-submit", 1)
     chk.floor("K8-handover", 4)
+    # "do not crash" on the failure paths: nothing but allocator memory is released
+    from ..dangling import run_free_stack
+    run_free_stack(chk, load_program("all"), "K8-freestack", lambda src: "/test/" not in src and not src.startswith("extras/"))
     chk.floor("T1-eof", 1)
     chk.floor("T2-short", 5)
     # an allocation failure that is "survived" by asking for less must leave the container describing what it got
@@ -1473,5 +1476,10 @@ def controls(chk):
     rule_e8(sub, prog, em, "ctl", set())
     got = {(o["rule"], o["function"]) for o in sub.obl if o["verdict"] == "VIOLATED"}
     chk.control("E8", ("E8", "ctl_try_next") in got, "failure taken for 'try the next candidate'")
+    from ..dangling import run_free_stack
+    run_free_stack(sub, prog, "K8-freestack", lambda src: True)
+    got = {(o["rule"], o["function"]) for o in sub.obl if o["verdict"] == "VIOLATED"}
+    chk.control("K8-freestack", ("K8-freestack", "ctl_free_stack") in got, "small-buffer idiom released without excluding the local array")
+    chk.control("K8-freestack/silent", ("K8-freestack", "ctl_free_heap_only") not in got, "free() behind `p != small` must not be reported")
     chk.control("silent-on-good", not any(fn in ("ctl_good", "ctl_loop_checked", "ctl_no_collapse", "ctl_fail_set", "ctl_try_next_told") for (_r, fn) in got),
                 "correct functions must not be reported")
